@@ -68,6 +68,7 @@ func (r *BReq) Replied() int64 {
 
 // Action is what a fake node does with a request.
 type Action struct {
+	hold             bool // handshake reply to be merged with the next reply
 	Reply            []byte
 	Gate             *Gate         // wait for it before writing the reply
 	Chunks           []int         // write the reply in pieces of these sizes (rest in one)
@@ -152,6 +153,10 @@ type Node struct {
 type Cluster struct {
 	Nodes    []*Node
 	Password string
+	// HandshakeMode: "" normal; "split": AUTH/READONLY replies are written
+	// byte by byte; "merge": they are held back and written together with the
+	// next reply in one write.
+	HandshakeMode string
 
 	mu          sync.Mutex
 	handler     Handler
@@ -420,6 +425,7 @@ func (bc *BConn) dispatch(args [][]byte, raw []byte) {
 			bc.Authed = true
 			bc.mu.Unlock()
 			a.Reply = StatusReply("OK")
+			cl.handshakeStyle(&a)
 		} else {
 			a.Reply = ErrReply("ERR invalid password")
 		}
@@ -430,6 +436,7 @@ func (bc *BConn) dispatch(args [][]byte, raw []byte) {
 		bc.ReadOnly = true
 		bc.mu.Unlock()
 		a.Reply = StatusReply("OK")
+		cl.handshakeStyle(&a)
 	case cmd == "readwrite":
 		bc.mu.Lock()
 		bc.ReadOnly = false
@@ -464,6 +471,16 @@ func (bc *BConn) dispatch(args [][]byte, raw []byte) {
 	bc.acts <- pending{r, a}
 }
 
+func (cl *Cluster) handshakeStyle(a *Action) {
+	switch cl.HandshakeMode {
+	case "split":
+		a.Chunks = []int{1, 1, 1, 1}
+		a.ChunkPause = 200 * time.Microsecond
+	case "merge":
+		a.hold = true
+	}
+}
+
 func (n *Node) infoText() string {
 	var sb strings.Builder
 	sb.WriteString("# Server\r\nredis_version:6.2.6\r\nredis_mode:cluster\r\n# Persistence\r\n")
@@ -487,8 +504,44 @@ func (n *Node) infoText() string {
 }
 
 func (bc *BConn) writeLoop() {
-	for p := range bc.acts {
+	var held []byte
+	var next *pending
+	for {
+		var p pending
+		if next != nil {
+			p, next = *next, nil
+		} else {
+			var ok bool
+			if p, ok = <-bc.acts; !ok {
+				return
+			}
+		}
 		a := p.a
+		if a.hold {
+			held = append(held, a.Reply...)
+			p.r.mu.Lock()
+			p.r.Reply = a.Reply
+			p.r.ReplyAt = Tick()
+			p.r.mu.Unlock()
+			// wait briefly for a pipelined follower to merge with; a client that
+			// waits for the handshake reply before sending more gets it alone
+			select {
+			case p2, ok := <-bc.acts:
+				if !ok {
+					bc.c.Write(held)
+					return
+				}
+				next = &p2
+			case <-time.After(30 * time.Millisecond):
+				bc.c.Write(held)
+				held = nil
+			}
+			continue
+		}
+		if len(held) > 0 {
+			a.Reply = append(held, a.Reply...)
+			held = nil
+		}
 		if a.Gate != nil {
 			<-a.Gate.ch
 		}
